@@ -193,10 +193,11 @@ def run_fontkit(chk, pid, nprog):
     gl = sorted(inv)
     tmp = os.path.join(vlib.BUILD, 'fuzzfonts', 'fk-%s-%s-%d' % (pid, chk.tier, chk.seed))
     shutil.rmtree(tmp, ignore_errors=True); os.makedirs(tmp)
-    cases, progs = [], []
+    cases, progs, nsub_of = [], [], {}
     for k in range(nprog):
-        prog, nsub = c06.gen_program(rng, gl)
+        prog, nsub = c06.gen_copy_pos_program(rng, gl) if k % 10 == 7 else c06.gen_program(rng, gl)
         p = os.path.join(tmp, 'p%d.ttf' % k)
+        nsub_of[p] = nsub
         open(p, 'wb').write(K.build_font(base, prog, nsub))
         text = K.prog_to_text(prog)
         alpha = sorted(set(g for ps in prog for g in ps['alpha']))
@@ -225,6 +226,10 @@ def run_fontkit(chk, pid, nprog):
             vals = wf.split(':')[-1].split(',') if ':' in wf else []
             if pid == 'C05' and wf.startswith('cinfo-slot-range') and '-1' in vals and 'D' in text and all(v == '-1' or v.lstrip('-').isdigit() and int(v) >= 0 for v in vals):
                 key = 'c05:char-of-deleted-slot-left-unassociated'
+            # the recorded defect F36: PUT_COPY in a positioning pass (after associateChars has run for the last time) hands the slot the
+            # before / after of the slot it copies and loses its own, so a character may be left in no slot's range
+            if pid == 'C05' and wf.startswith('char-uncovered') and nsub_of.get(fp) is not None and any('C' in ps for ps in text.split('/')[nsub_of[fp]:]):
+                key = 'c05:put-copy-in-positioning-pass-loses-the-association'
             chk.violation(key, 'after the passes of a compiled rule program the segment violates the property: %s' % wf, dict(case=c, got=i[:1500], program=text, font_gz_b64=c06.blob(fp)))
         mres = (m or '').split()
         if len(mres) < 3 or mres[2] not in ('ok', 'none'):
